@@ -17,7 +17,10 @@ Case kinds (field 'kind'):
           the body size; Ombott.__call__ runs a handler that reads request.forms
   modes   parse_qsl's other two modes: append=acc.append on a non-empty list and setitem=d.__setitem__ on a
           non-empty dict (also both keywords at once: setitem wins)
-  reuse   ONE Ombott application serving several requests in a row (query / forms / params of each)
+  reuse   several requests in ONE process, many of them over the SAME raw query string / body (repeated keys), through
+          one Ombott application ('via'='app') or as separate Request objects ('via'='request'); after every
+          read the handler MUTATES what it got in place ('mut': reverse / sort / append / pop on the list values,
+          keys added / deleted, clear) — a later request must still decode its own text in submission order
   cachein helpers.cache_in on a toy class: both storage forms, read_only, failing getter; get / set / del
   prim    primitive-level comparison of lib/Utf8.v and lib/Pct.v with str.encode / bytes.decode /
           urllib.parse (field 'op')
@@ -318,6 +321,16 @@ def corpus():
         dict(kind='modes', mode='setitem', d0=[], qs=S('=v&a&a=%e9&&b==')),
         dict(kind='modes', mode='append', d0=[], qs=S('=v&a&a=%e9&&b==')),
         dict(kind='reuse', reqs=[[S('a=1&a=2'), S('x=1')], [S(''), S('')], [S('b=2'), S('x=2&y=%e9')], [S('a=1&a=2'), S('x=1')]]),
+        # returned values are changed in place, then the same raw text arrives again (seeded edit: query memoised
+        # per raw string with a shallow copy -> the list of a repeated key shared between requests)
+        dict(kind='reuse', via='app', mut=['reverse'],
+             reqs=[[S('tag=b&tag=a&tag=c&page=2'), S('x=2&x=1')]] * 3),
+        dict(kind='reuse', via='request', mut=['sort', 'append'],
+             reqs=[[S('tag=b&tag=a&tag=c&page=2'), S('x=2&x=1')], [S('q=1'), S('')], [S('tag=b&tag=a&tag=c&page=2'), S('x=2&x=1')]]),
+        dict(kind='reuse', via='app', mut=['pop', 'add_key', 'del_key'],
+             reqs=[[S('k=1&k=2&k=3'), S('k=9&k=8')], [S('k=1&k=2&k=3'), S('k=9&k=8')]]),
+        dict(kind='reuse', via='request', mut=['list_clear', 'dict_clear'],
+             reqs=[[S('k=1&k=2&j=%e9'), S('k=9&k=8')]] * 2),
         dict(kind='cachein', form='attr', ro=False, fails=False, base=10,
              ops=[['get'], ['get'], ['del'], ['del'], ['get'], ['set', 7], ['get']]),
         dict(kind='cachein', form='key', ro=True, fails=False, base=3, ops=[['get'], ['set', 7], ['del'], ['get']]),
@@ -441,6 +454,9 @@ def gen_seq_ops(rng):
     return dict(kind='seq', qs=rand_raw(rng), body=[x for x in rand_raw(rng) if x < 256], ops=ops, ct=ct, ro=ro)
 
 
+MUTATIONS = ['reverse', 'sort', 'append', 'pop', 'list_clear', 'add_key', 'del_key', 'dict_clear', 'set_value']
+
+
 def gen_misc(rng):
     k = rng.random()
     if k < 0.4:
@@ -455,16 +471,16 @@ def gen_misc(rng):
         return c
     if k < 0.7:
         def one():
-            if rng.random() < 0.7:
+            if rng.random() < 0.8:
                 sp = rng.choice(['plus', 'quote'])
                 pool = [rand_text(rng, 1, 2) for _ in range(2)]
-                mk = lambda: [[list(rng.choice(pool)), rand_text(rng, 0, 3)] for _ in range(rng.randrange(0, 4))]
+                mk = lambda: [[list(rng.choice(pool)), rand_text(rng, 0, 3)] for _ in range(rng.randrange(0, 5))]
                 return [S(pairs_text(mk(), sp).decode('ascii')), list(pairs_text(mk(), sp))]
             return [[x for x in rand_raw(rng) if not 0xD800 <= x < 0xE000], [x for x in rand_raw(rng) if x < 256]]
-        reqs = [one() for _ in range(rng.randrange(2, 5))]
-        if rng.random() < 0.5:
-            reqs.append(list(reqs[0]))
-        return dict(kind='reuse', reqs=reqs)
+        distinct = [one() for _ in range(rng.randrange(1, 4))]
+        reqs = [list(rng.choice(distinct)) for _ in range(rng.randrange(2, 6))]     # the same raw text comes back
+        mut = rng.sample(MUTATIONS, rng.randrange(0, 4))
+        return dict(kind='reuse', reqs=reqs, via=rng.choice(['app', 'request']), mut=mut)
     ops = []
     for _ in range(rng.randrange(2, 9)):
         r = rng.random()
@@ -476,7 +492,7 @@ def gen_misc(rng):
 def gen(rng, n):
     for _ in range(n):
         r = rng.random()
-        if r < 0.03:
+        if r < 0.06:
             yield gen_misc(rng)
         elif r < 0.1:
             if rng.random() < 0.75:
@@ -837,6 +853,8 @@ def project(obs, case):
         return dict(status=obs['status'], reads=obs['reads'])
     if case['kind'] == 'cachein' and 'calls' in obs:
         return dict(status=obs['status'], out=obs['out'])
+    if case['kind'] == 'reuse' and 'baseline' in obs:
+        return dict(status=obs['status'], responses=obs['responses'])
     return obs
 
 
@@ -956,28 +974,79 @@ def run_modes(case):
         return dict(status='raised', exc=type(e).__name__)
 
 
-def run_reuse(case):
-    from ombott import Ombott
-    app = Ombott()
-    seen = []
+def mutate_in_place(d, mut):
+    """what a handler may do with its own request data"""
+    for m in mut:
+        lists = [v for v in d.values() if isinstance(v, list)]
+        if m == 'reverse':
+            [v.reverse() for v in lists]
+        elif m == 'sort':
+            [v.sort() for v in lists]
+        elif m == 'append':
+            [v.append('appended') for v in lists]
+        elif m == 'pop':
+            [v.pop() for v in lists if v]
+        elif m == 'list_clear':
+            [v.clear() for v in lists]
+        elif m == 'add_key':
+            d['added by handler'] = 'x'
+        elif m == 'del_key':
+            if d:
+                del d[next(iter(d))]
+        elif m == 'set_value':
+            for k in list(d):
+                d[k] = 'overwritten'
+        elif m == 'dict_clear':
+            d.clear()
 
-    def handler():
-        rq = app.request
-        seen.append([dump_dict(rq.query), dump_dict(rq.forms), dump_dict(rq.params)])
-        return 'ok'
-    app.route('/b', method='POST', callback=handler)
-    codes = []
+
+def reuse_env(q, b, path='/b'):
+    env = environ('POST', path, QUERY_STRING=T(q))
+    env['wsgi.input'] = io.BytesIO(bytes(b))
+    env['CONTENT_LENGTH'] = str(len(b))
+    env['CONTENT_TYPE'] = 'application/x-www-form-urlencoded'
+    return env
+
+
+def run_reuse(case):
+    from ombott import Ombott, Request
+    mut = case.get('mut') or []
+
+    def observe(rq, out):
+        views = [rq.query, rq.forms, rq.params]
+        out.append([dump_dict(v) for v in views])             # dumped before anything is changed
+        for v in views:
+            mutate_in_place(v, mut)
+    # baseline first: every distinct request decoded once, nothing mutated yet in this process
+    baseline = {}
     for q, b in case['reqs']:
-        env = environ('POST', '/b', QUERY_STRING=T(q))
-        env['wsgi.input'] = io.BytesIO(bytes(b))
-        env['CONTENT_LENGTH'] = str(len(b))
-        env['CONTENT_TYPE'] = 'application/x-www-form-urlencoded'
-        out = {}
-        b''.join(app(env, lambda status, headers, exc_info=None: out.update(status=status)))
-        codes.append(int(out['status'].split()[0]))
-    if codes != [200] * len(codes):
-        return dict(status='codes %s' % codes)
-    return dict(status='ok', responses=seen)
+        key = json_key(q, b)
+        if key not in baseline:
+            rq = Request(reuse_env(q, b))
+            baseline[key] = [dump_dict(rq.query), dump_dict(rq.forms), dump_dict(rq.params)]
+    seen = []
+    if case.get('via', 'app') == 'request':
+        for q, b in case['reqs']:
+            observe(Request(reuse_env(q, b)), seen)                # another Request object each time
+    else:
+        app = Ombott()
+
+        def handler():
+            observe(app.request, seen)
+            return 'ok'
+        app.route('/b', method='POST', callback=handler)
+        codes = []
+        for q, b in case['reqs']:
+            out = {}
+            b''.join(app(reuse_env(q, b), lambda status, headers, exc_info=None: out.update(status=status)))
+            codes.append(int(out['status'].split()[0]))
+        if codes != [200] * len(codes):
+            return dict(status='codes %s' % codes)
+    return dict(status='ok', responses=seen, baseline=[baseline[json_key(q, b)] for q, b in case['reqs']])
+
+
+def json_key(q, b):
+    return (tuple(q), tuple(b))
 
 
 def run_cachein(case):
@@ -1263,15 +1332,12 @@ def oracle_misc(case, obs):
         want = merge([[S(k), ['s', S(v)]] for k, v in first.items()], group(ps))
         return None if obs['items'] == want else 'parse_qsl(setitem=) into %s gave %s, expected %s' % (d0, short(obs['items']), short(want))
     if case['kind'] == 'reuse':
-        from ombott import Request
-        for i, (q, b) in enumerate(case['reqs']):
-            env = environ('POST', '/', body=bytes(b), QUERY_STRING=T(q), CONTENT_TYPE='application/x-www-form-urlencoded')
-            env['CONTENT_LENGTH'] = str(len(b))
-            rq = Request(env)
-            want = [dump_dict(rq.query), dump_dict(rq.forms), dump_dict(rq.params)]
+        for i in range(len(case['reqs'])):
+            want = obs['baseline'][i]          # decoded before any handler touched anything in this process
             if obs['responses'][i] != want:
-                return 'request #%d on a reused application decoded %s, a request of its own decodes %s' % (
-                    i + 1, [short(x) for x in obs['responses'][i]], [short(x) for x in want])
+                return ('request #%d (%s, after handlers did %s to their own request data) decoded %s; '
+                        'the text it carries decodes to %s' % (i + 1, case.get('via', 'app'), case.get('mut') or 'nothing',
+                                                              [short(x) for x in obs['responses'][i]], [short(x) for x in want]))
         return None
     # cache_in: replay the documented behaviour independently
     cached, calls, want = None, 0, []
@@ -1418,7 +1484,8 @@ def nontrivial(case, obs):
     if case['kind'] == 'modes':
         return bool(case['d0']) and len(modes_qs(case)) > 2
     if case['kind'] == 'reuse':
-        return len(case['reqs']) >= 2
+        keys = [json_key(q, b) for q, b in case['reqs']]
+        return len(keys) > len(set(keys)) and bool(case.get('mut'))
     if case['kind'] == 'cachein':
         return len(case['ops']) >= 3
     if case['kind'] == 'seq' and 'ops' in case:
@@ -1449,7 +1516,11 @@ def classify(case, obs):
         return 'rt/%s/%s/%s' % (case['via'], case['spelling'],
                                 'repeated' if len(set(keys)) < len(keys) else 'distinct' if keys else 'empty')
     if case['kind'] in ('modes', 'reuse', 'cachein'):
-        return '%s/%s/%s' % (case['kind'], case.get('mode') or case.get('form') or len(case['reqs']), obs.get('status'))
+        if case['kind'] == 'reuse':
+            keys = [json_key(q, b) for q, b in case['reqs']]
+            return 'reuse/%s/%s/%s/%s' % (case.get('via', 'app'), 'same-text-again' if len(keys) > len(set(keys)) else 'distinct',
+                                          'mutating' if case.get('mut') else 'read-only', obs.get('status'))
+        return '%s/%s/%s' % (case['kind'], case.get('mode') or case.get('form'), obs.get('status'))
     if case['kind'] == 'frame':
         n = len(case['text'])
         hdr = ('no-cl' if case['cl'] < 0 and not case['chunked'] else 'chunked+cl' if case['chunked'] and case['cl'] >= 0
@@ -1593,8 +1664,11 @@ API_SURFACE = [
     ('BaseRequest._forms_factory override', 'excluded: customisation point; the property is about FormsDict'),
     ('config max_memfile_size / max_body_size (Ombott(dict), defaults)', 'covered by frame (constructor dict) and seq/rt '
                                                                          '(defaults); setup() excluded: C13'),
-    ('application object reused across requests', 'covered by reuse (one Ombott, several __call__)'),
-    ('module-level state', 'none in the anchored code (urllib.parse._hextobyte is a lazily built constant table)'),
+    ('application object reused across requests', 'covered by reuse via=app (one Ombott, several __call__)'),
+    ('several Request objects over the same raw text, returned containers mutated in place in between',
+     'covered by reuse via=request/app with mut (baseline decoded before any mutation in the process)'),
+    ('module-level state', 'none in the anchored code today (urllib.parse._hextobyte is a lazily built constant table); '
+                           'a memo keyed by the raw text would be exposed by reuse'),
 ]
 
 PREDICATES = {'body_replaced_after_read': pred_body_replaced_after_read,
